@@ -96,7 +96,7 @@ func traceCase(w *wire.Writer, r *pbfrun.Runner, f *file, procs int, skip [3]boo
 		return nil, err
 	}
 	o := &obs[0]
-	if o.Crash || o.Hang {
+	if o.Crash || o.Hang || o.Skipped {
 		c := &wire.Case{Class: "trace", OracleFail: "crash or hang on a valid file: " + o.CrashMsg}
 		c.Int(1)
 		c.Desc = map[string]interface{}{"kind": "trace", "crash": o.CrashMsg, "file": f.desc}
@@ -166,6 +166,7 @@ func traceCase(w *wire.Writer, r *pbfrun.Runner, f *file, procs int, skip [3]boo
 type stopRun struct {
 	Lo, Hi      int
 	FSB, PFSB   int64
+	FSB2, PFSB2 int64 // read again after the scan was stopped (Close for even k, cancel for odd k)
 	Resumed     []uint64
 	RErr        int
 	PrevResumed []uint64
@@ -189,13 +190,26 @@ func stopsCase(w *wire.Writer, r *pbfrun.Runner, f *file, procs int, skip [3]boo
 	var runs []stopRun
 	for i := range obs {
 		o := &obs[i]
+		if o.Skipped {
+			break
+		}
 		if o.Crash || o.Hang {
 			c.OracleFail = fmt.Sprintf("stop %d: crash or hang on a valid file: %s", o.Unit, o.CrashMsg)
-			runs = append(runs, stopRun{Lo: o.Unit, Hi: o.Unit, FSB: -1, PFSB: -1, RErr: 2, PErr: 2, Short: true, Crash: o.CrashMsg})
+			how := o.CrashMsg
+			if o.Hang {
+				how = "the scan did not return (killed by the watchdog)"
+				c.OracleFail = fmt.Sprintf("stop %d, procs %d: %s", o.Unit, procs, how)
+			}
+			runs = append(runs, stopRun{Lo: o.Unit, Hi: o.Unit, FSB: -1, PFSB: -1, FSB2: -1, PFSB2: -1, RErr: 2, PErr: 2, Short: true, Crash: how})
 			continue
 		}
-		sr := stopRun{o.Unit, o.Unit, o.FSB[0], o.PFSB[0], o.Resumed, o.ResumedErr, o.PrevResumed, o.PrevResumedErr, o.StopShort, ""}
+		sr := stopRun{o.Unit, o.Unit, o.FSB[0], o.PFSB[0], o.FSB[1], o.PFSB[1], o.Resumed, o.ResumedErr, o.PrevResumed, o.PrevResumedErr, o.StopShort, ""}
+		if c.OracleFail == "" && (sr.FSB2 != sr.FSB || sr.PFSB2 != sr.PFSB) {
+			c.OracleFail = fmt.Sprintf("stop after %d objects: offsets %d/%d before and %d/%d after the scan was stopped (Close for even k, cancel for odd k)",
+				o.Unit, sr.FSB, sr.PFSB, sr.FSB2, sr.PFSB2)
+		}
 		if n := len(runs); n > 0 && runs[n-1].Hi+1 == sr.Lo && runs[n-1].FSB == sr.FSB && runs[n-1].PFSB == sr.PFSB &&
+			runs[n-1].FSB2 == sr.FSB2 && runs[n-1].PFSB2 == sr.PFSB2 &&
 			eqToks(runs[n-1].Resumed, sr.Resumed) && eqToks(runs[n-1].PrevResumed, sr.PrevResumed) &&
 			runs[n-1].RErr == sr.RErr && runs[n-1].PErr == sr.PErr && runs[n-1].Short == sr.Short && runs[n-1].Crash == "" {
 			runs[n-1].Hi = sr.Hi
@@ -217,7 +231,7 @@ func stopsCase(w *wire.Writer, r *pbfrun.Runner, f *file, procs int, skip [3]boo
 	pbfrun.EmitFrames(c, fds)
 	c.Len(len(runs))
 	for _, s := range runs {
-		c.Int(int64(s.Lo)).Int(int64(s.Hi)).Int(s.FSB).Int(s.PFSB)
+		c.Int(int64(s.Lo)).Int(int64(s.Hi)).Int(s.FSB).Int(s.PFSB).Int(s.FSB2).Int(s.PFSB2)
 		pbfrun.EmitToks(c, s.Resumed)
 		c.Int(int64(s.RErr))
 		pbfrun.EmitToks(c, s.PrevResumed)
@@ -263,6 +277,10 @@ func main() {
 	skips := [][3]bool{{}, {true, false, false}, {false, true, false}, {false, false, true}, {true, true, false}, {true, false, true}, {false, true, true}, {true, true, true}}
 	var firstStops, firstTrace *wire.Case
 	for i := 0; i < nFiles; i++ {
+		if r.GaveUp() {
+			w.Notes = append(w.Notes, "the runner gave up after repeated hangs: generation stopped early")
+			break
+		}
 		var f *file
 		noHeader := i%4 == 3
 		if i%2 == 0 {
@@ -297,6 +315,17 @@ func main() {
 				w.Count(fmt.Sprintf("procs=%d", p))
 				w.Count(fmt.Sprintf("skip=%v", skip))
 			}
+		}
+		// more decoders than the channel budget (10/procs = 0: unbuffered channels), also for the
+		// resumed scanners
+		{
+			p := []int{11, 16, 32}[i%3]
+			c, err := stopsCase(w, r, f, p, skips[0])
+			if err != nil {
+				fail(err)
+			}
+			w.Add(c)
+			w.Count(fmt.Sprintf("procs=%d", p))
 		}
 	}
 	// canaries
